@@ -186,6 +186,21 @@ def run(chk):
                      ("bogus", "OptOther"), ("MAX_N", "OptOther"), ("exact", "OptOther")):
         rows.append((f"GQR.fit(constraint_option={name!r})", f"g_gqr_option {cq}",
                      lambda name=name: GQR().fit(X.T.copy(), idx_constrained=[1, 2], n_sensors=3, n_const_sensors=1, all_sensors=allq, constraint_option=name), True))
+    # the same invalid request repeated on ONE optimizer object (fresh, and after a valid constrained fit) must be rejected every time
+    def gqr_repeat(prefit, name):
+        g = GQR()
+        kw = dict(idx_constrained=[1, 2], n_sensors=3, n_const_sensors=1, all_sensors=allq)
+        if prefit:
+            g.fit(X.T.copy(), constraint_option="max_n", **kw)
+        try:
+            g.fit(X.T.copy(), constraint_option=name, **kw)
+        except Exception:
+            pass
+        return g.fit(X.T.copy(), constraint_option=name, **kw)
+    for prefit in (False, True):
+        for name in ("bogus", "exact"):
+            rows.append((f"GQR[{'fitted max_n' if prefit else 'fresh'}].fit(constraint_option={name!r}) second identical request", "g_gqr_option OptOther",
+                         lambda prefit=prefit, name=name: gqr_repeat(prefit, name), True))
     sens = np.arange(16)
     for ns_, dt, xmn, xmx, ymn, ymx, nxi, nyi in [(16, True, 0, 2, 0, 2, True, True), (0, True, 0, 2, 0, 2, True, True), (16, False, 0, 2, 0, 2, True, True),
                                                   (16, True, 2, 2, 0, 2, True, True), (16, True, 3, 1, 0, 2, True, True), (16, True, 0, 2, 2, 2, True, True),
